@@ -214,8 +214,8 @@ func World(cfg Config) *spec.World {
 	if x.has(FMultiService) {
 		nSvc = 1 + x.r.intn(3)
 	}
-	if nSvc < cfg.MinServices {
-		nSvc = cfg.MinServices
+	if nSvc < x.cfg.MinServices {
+		nSvc = x.cfg.MinServices
 	}
 	svcNames := []string{"Alpha", "BetaService", "GammaAPI"}
 	for i := 0; i < nSvc; i++ {
@@ -447,7 +447,7 @@ func (x *g) service(name string, idx int) {
 	for i := 0; i < nM; i++ {
 		var mn string
 		for {
-			if x.has(FNameShapes) && x.r.chance(1, 2) {
+			if (x.has(FNameShapes) && x.r.chance(1, 2)) || x.has(RDefaultPath) || x.has(RVerbOnly) {
 				mn = pick(x.r, methodNamesShaped)
 			} else {
 				mn = pick(x.r, methodNames)
